@@ -461,6 +461,13 @@ impl Datamodel for RFsmExpressionDatamodel {
     }
 
     fn set_arc(&mut self, name: &str, data: DataArc, allow_undefined: bool) {
+        let read_only = matches!(self.global_data.lock().unwrap().data.map.get(name), Some(old) if old.is_readonly());
+        if read_only {
+            // A write of the document to a system variable (<foreach index>, 'idlocation'): W3C demands error.execution.
+            error!("Can't set read-only '{}'", name);
+            self.internal_error_execution();
+            return;
+        }
         if allow_undefined {
             self.global_data
                 .lock()
